@@ -531,6 +531,9 @@ class Transport(threading.Thread, ClosingContextManager):
 
         self.initial_kex_done = False
         self.in_kex = False
+        # messages that must not go out while a re-exchange is in progress
+        # (RFC 4253 section 7.1); sent right after the exchange completes
+        self._deferred_messages = []
         self.authenticated = False
         self._expected_packet = tuple()
         # synchronization (always higher level than write_lock)
@@ -1968,13 +1971,40 @@ class Transport(threading.Thread, ClosingContextManager):
         self._channels.delete(chanid)
 
     def _send_message(self, data):
+        if self._must_defer(data):
+            self._deferred_messages.append(data)
+            return
         self.packetizer.send_message(data)
+
+    def _must_defer(self, data):
+        """
+        Whether ``data`` has to wait for a key re-exchange in progress.
+
+        Once we have sent KEXINIT, only transport-layer and key exchange
+        messages may go out until the exchange is over.  Replies that handlers
+        generate for peer traffic which was already in flight (request and
+        channel-open answers, channel closes...) are parked and sent by
+        `_parse_newkeys` instead.
+        """
+        if not self.initial_kex_done or self.clear_to_send.is_set():
+            return False
+        ptype = byte_ord(data.asbytes()[0])
+        return not (1 <= ptype <= 4 or ptype == 7 or 20 <= ptype <= 49)
 
     def _send_user_message(self, data):
         """
         send a message, but block if we're in key negotiation.  this is used
         for user-initiated requests.
         """
+        if (
+            threading.current_thread() is self
+            and not self.clear_to_send.is_set()
+            and self.initial_kex_done
+        ):
+            # We are the thread that has to finish the exchange, so waiting
+            # for it here would stall until the timeout and kill the session.
+            self._deferred_messages.append(data)
+            return
         start = time.time()
         while True:
             self.clear_to_send.wait(0.1)
@@ -2972,6 +3002,11 @@ class Transport(threading.Thread, ClosingContextManager):
         self.clear_to_send_lock.acquire()
         try:
             self.clear_to_send.set()
+            # first what piled up during the exchange, then (once the lock is
+            # released) whatever user threads are waiting to send
+            deferred, self._deferred_messages = self._deferred_messages, []
+            for msg in deferred:
+                self.packetizer.send_message(msg)
         finally:
             self.clear_to_send_lock.release()
         return
